@@ -84,6 +84,10 @@ def _gen_text(rng, bl, prompt):
         # out of the domain on purpose
         return rng.choice([b"a\rb\n", b"a\r\nb\r\n", b"x\r", b"ab" + bytes([rng.choice(list(bl))]) + b"\ncd\n",
                            bytes([rng.choice(list(bl))]), b"x\n" + prompt + b"\n", b"y\n" + prompt])
+    if k < 0.16:
+        # single lines (the `printf` fast path) that mix quoting hazards
+        return rng.choice([b"it's on \\\\server\\dir", b"a'b\\\\c", b"'\\\\'", b"don't \\n \\\\n", b"say \"it's\" $HOME `id`",
+                           b"100% 'done' \\\\", b"-n 'x'", b"'", b"\\"]) + rng.choice([b"", b"", b"\n"])
     if k < 0.2:
         # more than one send slice, 'tee: ' early
         body = b"\n".join(gen_line(rng, bl, prompt) for _ in range(rng.randint(2, 5)))
